@@ -42,15 +42,22 @@ def cases(tier, seed):
                 for eng in ("h5netcdf", "joblib"):
                     j += 1
                     ops = ["roundtrip", "merge", "harvester"]
+                    hk = [list(sizes), vdt, cdt, nanp, eng]
                     if tier == "quick":
-                        ops = [ops[j % 3]]
+                        ops = [ops[core.pick(hk + ["op"], 3)]]
                     for op in ops:
+                        # (secondary dimensions rotate by a hash of the case,
+                        # so that none is in lock-step with another)
                         yield {"sizes": list(sizes), "vdt": vdt, "cdt": cdt,
                                "nan": nanp, "engine": eng,
-                               "attrs": (j + len(op)) % len(ATTRS),
-                               "name": NAMES[(j + nd) % len(NAMES)],
-                               "chunks": [None, 1, "dict"][(j // 2) % 3],
-                               "op": op, "second": DT[(j + 2) % 5]}
+                               "attrs": core.pick(hk + [op, "attrs"],
+                                                  len(ATTRS)),
+                               "name": NAMES[core.pick(hk + [op, "name"],
+                                                       len(NAMES))],
+                               "chunks": [None, 1, "dict"][
+                                   core.pick(hk + [op, "chunks"], 3)],
+                               "op": op,
+                               "second": DT[core.pick(hk + [op, "2nd"], 5)]}
 
 
 def worker_init():
